@@ -73,9 +73,10 @@ def inline_all(raw):
     for b in raw['bodies']:
         by_path.setdefault(b['path'], []).append(b)
     new_fns = {p for p, l in by_path.items() if len(l) == 1 and l[0]['kind'] in ('Fn', 'AssocFn') and p not in base}
-    if not new_fns:
-        return 0
-    originals = {p: copy.deepcopy(by_path[p][0]) for p in new_fns}
+    # local closures that are called directly (`let pull = || ..; pull()`): the call resolves to the closure body itself. They are spliced in
+    # like helpers (the rules are written against the code without the indirection); closures handed to adaptors are not affected
+    clos = {p for p, l in by_path.items() if len(l) == 1 and l[0]['kind'] == 'Closure'}
+    originals = {p: copy.deepcopy(by_path[p][0]) for p in new_fns | clos}
     n = 0
     for body in raw['bodies']:
         if body['kind'] == 'Promoted':
@@ -88,6 +89,10 @@ def inline_all(raw):
                     continue
                 cp = _callee_path(t)
                 if cp in new_fns and cp != body['path'] and len(originals[cp]['blocks']) <= MAX_CALLEE_BLOCKS:
+                    sites.append((bi, cp))
+                elif cp in clos and cp != body['path'] and cp.startswith(body['path'] + '::') and len(originals[cp]['blocks']) <= MAX_CALLEE_BLOCKS and \
+                        str((t.get('func') or {}).get('c', {}).get('fn', '')).startswith(('std::ops::Fn::call', 'std::ops::FnMut::call_mut', 'std::ops::FnOnce::call_once')) and \
+                        len(t.get('args', [])) == 2:
                     sites.append((bi, cp))
             if not sites:
                 break
@@ -115,10 +120,20 @@ def _inline_site(body, bi, callee):
     # argument passing at the callee entry
     entry = new_blocks[0]
     pre = []
-    for i, a in enumerate(t.get('args', [])):
-        if i >= callee['arg_count']:
-            break
-        pre.append({'k': 'assign', 'lhs': {'l': loff + 1 + i, 'p': []}, 'rv': {'k': 'use', 'op': copy.deepcopy(a)}, 'span': span})
+    if callee['kind'] == 'Closure':
+        # rust-call ABI: (closure, (a, b, ..)) at the call site, (_1 = closure, _2 = a, _3 = b, ..) in the body
+        args = t.get('args', [])
+        pre.append({'k': 'assign', 'lhs': {'l': loff + 1, 'p': []}, 'rv': {'k': 'use', 'op': copy.deepcopy(args[0])}, 'span': span})
+        tup = args[1]
+        for i in range(callee['arg_count'] - 1):
+            if 'pl' in tup:
+                op = {'k': tup.get('k', 'move'), 'pl': {'l': tup['pl']['l'], 'p': list(tup['pl']['p']) + [{'f': i}]}}
+                pre.append({'k': 'assign', 'lhs': {'l': loff + 2 + i, 'p': []}, 'rv': {'k': 'use', 'op': op}, 'span': span})
+    else:
+        for i, a in enumerate(t.get('args', [])):
+            if i >= callee['arg_count']:
+                break
+            pre.append({'k': 'assign', 'lhs': {'l': loff + 1 + i, 'p': []}, 'rv': {'k': 'use', 'op': copy.deepcopy(a)}, 'span': span})
     entry['stmts'] = pre + entry['stmts']
     # returns
     tgt = t.get('target')
